@@ -147,6 +147,25 @@ def run_case(c):
         el = float(np.abs(np.sort(lam_rep) - np.sort(lam)).max())
         if el > 1e-8 * max(np.abs(lam).max(), fscale):
             viol.append({"kind": "freq_mismatch", "msg": "frequencies^2/factor^2 differ from eigenvalues of the lattice sum by %.3e at %s" % (el, kind), "qkind": kind})
+    # the other layout assigned to the SAME object afterwards (compact after full / full after compact: everything derived from the shape of the
+    # first array - index tables of the compiled kernel - must follow), then the first one again
+    relay = {}
+    if len(sc) != len(pr):
+        for step_, full_ in enumerate((not c["full"], c["full"])):
+            ph.force_constants = np.array(fc if full_ else fc[p2s], dtype="double", order="C")
+            dm_ = ph.dynamical_matrix
+            for kind, q in qs[:3] + qs[-1:]:
+                D = models.exact_dm(pr.cell, pr.scaled_positions, pr.symbols, pr.masses, cutoff, q, r0=r0)
+                sD = max(np.abs(D).max(), fscale)
+                for lang_ in ("C", "Py"):
+                    dm_.run(q, lang=lang_)
+                    e = float(np.abs(np.array(dm_.dynamical_matrix) - D).max())
+                    if not np.isfinite(e) or e > TOL * max(sD, 1e-12):
+                        viol.append({"kind": "dm_mismatch", "msg": "after assigning the %s layout to an object that held the %s layout: D(q) via %s differs from the lattice sum by %.3e (max|D| %.3e) at %s q=%s" % (
+                            "full" if full_ else "compact", "compact" if full_ else "full", lang_, e, sD, kind, np.round(q, 4).tolist()), "path": lang_, "qkind": kind, "full": full_,
+                            "dense": c["store_dense_svecs"], "regime": c["regime"], "layout_switch": True})
+                        break
+        relay = {"layout_switches_on_one_object": 2}
     # thousands of q-points in one request (a dense band path or mesh; routines that work through the q-points in blocks only show their block
     # handling there): sampled entries, among them the neighbours of the powers of two, against the lattice sum
     big = {}
@@ -202,7 +221,7 @@ def run_case(c):
     multi = ph.primitive.get_smallest_vectors()[1]
     maxmult = int(np.max(multi[..., 0])) if multi.ndim == 3 else int(np.max(multi))
     return {"viol": viol[:6], "nontrivial": nontrivial, "key": key, "evals": len(qs) * 3,
-            "obs": {"q_" + k: v for k, v in nq.items()} | reorder | big | {"qlayout_" + qkind: 1, "fclayout_" + fckind: 1, "regime_" + c["regime"]: 1, "compact": int(not c["full"]), "sparse_svecs": int(not c["store_dense_svecs"]),
+            "obs": {"q_" + k: v for k, v in nq.items()} | reorder | big | relay | {"qlayout_" + qkind: 1, "fclayout_" + fckind: 1, "regime_" + c["regime"]: 1, "compact": int(not c["full"]), "sparse_svecs": int(not c["store_dense_svecs"]),
                                                             "ws_boundary_multiplicity_gt1": int(maxmult > 1), "shells": [shells]},
             "maxerr": maxerr,
             "sample": {"crystal": c["crystal"], "smat": c["smat"], "pmat": pm, "cutoff": cutoff, "Lmin": Lmin, "shells": shells, "regime": c["regime"],
